@@ -288,14 +288,105 @@ func c16Rels(x *mc.Exec) {
 	}
 }
 
+// c16Incremental builds one coherent schema through the API in every valid
+// order of its construction steps, with Rels() called after every subset of the
+// steps: the final listing must not depend on how the schema was built (nor on
+// whether it was inspected while being built).
+func c16Incremental(x *mc.Exec) {
+	type step struct {
+		name string
+		do   func(s *j.Schema) error
+		need []int // steps that must come first
+	}
+	steps := []step{
+		{"AddType(a)", func(s *j.Schema) error { return s.AddType(j.Type{Name: "a"}) }, nil},
+		{"AddType(ab)", func(s *j.Schema) error { return s.AddType(j.Type{Name: "ab"}) }, nil},
+		{"AddRel(a.x->ab)", func(s *j.Schema) error {
+			return s.AddRel("a", j.Rel{FromType: "a", FromName: "x", ToType: "ab"})
+		}, []int{0}},
+		{"AddTwoWayRel(a.bx<->ab.x)", func(s *j.Schema) error {
+			return s.AddTwoWayRel(j.Rel{FromType: "a", FromName: "bx", ToOne: true, ToType: "ab", ToName: "x"})
+		}, []int{0, 1}},
+		{"AddTwoWayRel(ab.p<->ab.c)", func(s *j.Schema) error {
+			return s.AddTwoWayRel(j.Rel{FromType: "ab", FromName: "p", ToOne: true, ToType: "ab", ToName: "c"})
+		}, []int{1}},
+	}
+	// reference: built in the canonical order without intermediate Rels() calls
+	ref := &j.Schema{}
+	for _, st := range steps {
+		if err := st.do(ref); err != nil {
+			x.Fail("C16:incremental:reference-build", "%s failed: %v", st.name, err)
+			return
+		}
+	}
+	var want []j.Rel
+	if p := Try(func() { want = ref.Rels() }); p != "" {
+		x.Fail("C16:incremental:panic", "Rels() panicked: %s", p)
+		return
+	}
+	// the explorer picks an order (respecting dependencies) and where Rels() is called
+	done := map[int]bool{}
+	s := &j.Schema{}
+	desc := ""
+	for len(done) < len(steps) {
+		var ready []int
+		for i, st := range steps {
+			if done[i] {
+				continue
+			}
+			ok := true
+			for _, n := range st.need {
+				if !done[n] {
+					ok = false
+				}
+			}
+			if ok {
+				ready = append(ready, i)
+			}
+		}
+		i := ready[x.Choose(len(ready), "next step")]
+		if err := steps[i].do(s); err != nil {
+			x.Fail("C16:incremental:step-failed", "%s failed after [%s]: %v", steps[i].name, desc, err)
+			return
+		}
+		done[i] = true
+		desc += steps[i].name + "; "
+		if x.Bool("inspect with Rels()") {
+			if p := Try(func() { _ = s.Rels() }); p != "" {
+				x.Fail("C16:incremental:panic", "Rels() panicked after [%s]: %s", desc, p)
+				return
+			}
+			desc += "Rels(); "
+			x.R.Add("transitions", 1)
+		}
+	}
+	var got []j.Rel
+	if p := Try(func() { got = s.Rels() }); p != "" {
+		x.Fail("C16:incremental:panic", "Rels() panicked after [%s]: %s", desc, p)
+		return
+	}
+	x.R.Add("transitions", 1)
+	x.Render(desc)
+	x.R.Sample("incremental", desc)
+	x.R.Mark("nontrivial", mc.Hash(desc))
+	if errs := s.Check(); len(errs) > 0 {
+		x.Fail("C16:incremental:incoherent", "the built schema is incoherent: %v", errs)
+		return
+	}
+	if !reflect.DeepEqual(got, want) {
+		x.Fail("C16:incremental:depends-on-history", "built as [%s] the schema lists %s, built in one go it lists %s", desc, showRels(got), showRels(want))
+	}
+}
+
 func init() {
 	Register(&Prop{
 		ID: "C16",
-		Rule: "Engine A: (a) ALL Rel values with FromType, FromName, ToType, ToName in {\"\",a,b,ab,bc,c,a_b} (names whose concatenations and _-joined keys collide) x 4 cardinality pairs = 9604 values, laws asserted directly (involution, idempotence, range, one-way untouched, symmetric Normalize and String for two-way relationships with four non-empty names; self-inverse only with equal cardinalities); (b) every coherent schema over types {a,ab}(,b) and relationship names {x,bx}(,a_x) built slot by slot (absent / one-way to any type / two-way with any later free slot / self-inverse), every order of AddType, and every map-iteration order of one loop instance inside Rels() (deviation bound 1). Non-trivial = two-way relationship value / schema with at least one two-way pair",
+		Rule: "Engine A: (a) ALL Rel values with FromType, FromName, ToType, ToName in {\"\",a,b,ab,bc,c,a_b} (names whose concatenations and _-joined keys collide) x 4 cardinality pairs = 9604 values, laws asserted directly (involution, idempotence, range, one-way untouched, symmetric Normalize and String for two-way relationships with four non-empty names; self-inverse only with equal cardinalities); (b) every coherent schema over types {a,ab}(,b) and relationship names {x,bx}(,a_x) built slot by slot (absent / one-way to any type / two-way with any later free slot / self-inverse), every order of AddType, and every map-iteration order of one loop instance inside Rels() (deviation bound 1). (c) one coherent schema built through AddType/AddRel/AddTwoWayRel in every dependency-respecting order of its 5 construction steps with Rels() called after every subset of the steps; the final listing must equal the one of a schema built in one go. Non-trivial = two-way relationship value / schema with at least one two-way pair / every incremental build",
 		Assumptions: []string{"relationships in the symmetric laws have non-empty FromType, FromName, ToType, ToName (what a schema can hold)"},
 		Harnesses: []Harness{
 			{Name: "C16/laws", Body: c16Laws, ShardDepth: 1},
 			{Name: "C16/rels", Body: c16Rels, Dev: func() int { return 1 }},
+			{Name: "C16/incremental", Body: c16Incremental},
 		},
 	})
 }
